@@ -5,7 +5,7 @@
    is the remainder W1 of the first SVD (identity frame); its unfoldings are then related to those of X itself:
         W1_[k] = sum over the r0 column blocks a of (U_a (x) I)^T X_<k+1>   ==>   rank W1_[k] <= r0 * rank X_<k+1>. *)
 From Coq Require Import List Arith Lia Bool Reals Lra RealField.
-From TLV Require Import Base.Shape Base.PyList Base.Tensor Base.BigSum Base.Ops Base.RSum Model.Base Model.SvdDecomp
+From TLV Require Import Base.Shape Base.PyList Base.Tensor Base.BigSum Base.Ops Base.RSum Model.Base Model.SvdDecomp Model.SvdDecompRingReq
      Proofs.SvdDecompProofs Proofs.SvdDecompProofsR Proofs.SvdDecompPyth Proofs.SvdDecompError Proofs.SvdDecompTails
      Proofs.SvdDecompErrorR Proofs.SvdDecompTuckerErr Proofs.SvdDecompHosvdBound Proofs.SvdDecompRing Proofs.SvdDecompRingR
      Proofs.SvdDecompPartial Proofs.SvdDecompRankCond Proofs.SvdDecompEckartYoung Proofs.SvdDecompTTUpper Proofs.SvdDecompTTRank.
@@ -497,3 +497,30 @@ Qed.
 (* the numeric side condition on an order-4 ring request with start bond 2: shape (4, 3, 2, 2), request (2, 2, 6, 4, 2) *)
 Example full_bonds_instance : full_bonds [3; 2; 2]%nat [6; 4; 2]%nat 2 2.
 Proof. cbn. lia. Qed.
+
+(* ------------------------------------------------------------------ a decidable form of the full-request premise (evaluated by the check
+   on every tensor_ring input its generator labels "sufficient") *)
+Lemma full_boundsb_spec : forall sizes ranks rk r0, full_boundsb sizes ranks rk r0 = true -> full_bonds sizes ranks rk r0.
+Proof.
+  induction sizes as [|n rest IH]; intros ranks rk r0 H; [exact I|].
+  destruct rest as [|n2 rest2]; [exact I|].
+  cbn [full_boundsb full_bonds] in *. cbv zeta in *. apply andb_prop in H. destruct H as [H1 H2].
+  split; [now apply Nat.leb_le | now apply IH].
+Qed.
+
+Theorem tr_full_requestb_sound (X : tensor R) (rank : rank_spec) (mode : nat) :
+  tr_full_requestb X rank mode = true -> tr_full_request X rank mode.
+Proof.
+  unfold tr_full_requestb, tr_full_request. cbv zeta.
+  destruct (validate_tr_rank (ndim X) rank) as [rk0|]; [|discriminate].
+  set (Xp := if Nat.eqb mode 0 then X else transpose 0 (rotate mode (seq 0 (ndim X))) X).
+  assert (Es : shape Xp = if Nat.eqb mode 0 then shape X else rotate mode (shape X)).
+  { unfold Xp. destruct (Nat.eqb mode 0); [reflexivity|]. unfold transpose. cbn [shape tabulate]. unfold ndim. apply permute_rotate. }
+  rewrite <- Es. set (rk := if Nat.eqb mode 0 then rk0 else tr_rotate_rank (ndim X) mode rk0).
+  intros H. apply andb_prop in H. destruct H as [H H3]. apply andb_prop in H. destruct H as [H1 H2].
+  apply Nat.ltb_lt in H1. apply Nat.eqb_eq in H2. split; [exact H1|].
+  unfold tr_core_full_request. cbv zeta. split; [|now apply full_boundsb_spec].
+  rewrite H2. destruct (Nat.le_ge_cases (hd 0%nat (shape Xp)) (prod (tl (shape Xp)))) as [Hle | Hge].
+  - rewrite Nat.min_l by exact Hle. apply factors_rows.
+  - rewrite Nat.min_r by exact Hge. apply factors_cols.
+Qed.
